@@ -514,6 +514,7 @@ class C08(Prop):
         cmp = getattr(self, "compare", True)
         th = tier == "thorough"
         core.tie_run(stats, "vq", ["gen-race"], self.nontrivial, cmp)
+        core.tie_run(stats, "vq", ["gen-early", 2400 if th else 480], self.nontrivial, cmp)
         core.tie_run(stats, "vq", ["gen-conc", seed + 3, 4000 if th else 500], self.nontrivial, cmp)
         core.tie_run(stats, "vq", ["gen-stress", seed + 3, 12 if th else 4, 10000 if th else 2000], self.nontrivial, cmp)
         core.tie_run(stats, "vq", ["gen-clones", 300000 if th else 100000], self.nontrivial, cmp)
@@ -545,6 +546,8 @@ class C16(Prop):
     def tie(self, stats, tier, seed):
         cmp = getattr(self, "compare", True)
         core.tie_run(stats, "vq", ["gen-conc", seed + 5, 5000 if tier == "thorough" else 600], self.nontrivial, cmp)
+        # forced through the sync point: a timer expires while the receiver sits between its expiry test and its sleep
+        core.tie_run(stats, "vq", ["gen-race"], self.nontrivial, cmp)
 
     def search(self, tier, seed):
         st = core.Stats()
